@@ -46,6 +46,9 @@ BUDGET = {
 # thorough tier, thread-placement engine: scripts x (random + PCT) x iterations each
 SHUTTLE_SCRIPTS = {"C08": 8000, "C07": 8000}
 SHUTTLE_ITERS = 50
+# a single run normally takes well under 10 ms; one that has not finished after this many
+# seconds in isolation is reported as not terminating
+CONFIRM_S = 30
 
 ENV = dict(os.environ, CARGO_NET_OFFLINE="true", RUST_BACKTRACE="0",
            MALLOC_TRIM_THRESHOLD_="2000000000", MALLOC_MMAP_THRESHOLD_="2000000000",
@@ -251,7 +254,7 @@ def check(prop, tier, seed, nworkers, scale):
     log("VERIF_SEED=%d property=%s tier=%s workers=%d" % (seed, prop, tier, nworkers))
     build()
     total = max(nworkers, int(BUDGET[(prop, tier)] * scale))
-    stall_s = 120
+    stall_s = 60
     known = load_known()
     summaries, crashes, hashes, tmp = run_workers(prop, seed, tier, total, nworkers, BIN, [], stall_s)
     for c in crashes:
@@ -281,17 +284,24 @@ def check(prop, tier, seed, nworkers, scale):
             die("determinism self-check failed: the same seeds produced different event logs in two executions")
 
     violations = []  # (class, signature, detail, replay)
+    confirmed_crashes = 0
     for c in crashes:
-        conf = confirm_crash(prop, seed, tier, c, BIN, c["extra"], stall_s, engine=c["engine"])
+        if confirmed_crashes >= 2:
+            # enough: every further dead worker is only counted (each confirmation of a hang
+            # costs a full watchdog period)
+            log("note: worker %d also died (%s) at run index %s; not confirmed individually" % (c["worker"], c["kind"], c["index"]))
+            continue
+        conf = confirm_crash(prop, seed, tier, c, BIN, c["extra"], CONFIRM_S, engine=c["engine"])
+        confirmed_crashes += 1
         if conf is None:
             die("worker %d %s at run index %s but the run does not %s in isolation (worker output kept in %s)"
                 % (c["worker"], c["kind"], c["index"], c["kind"], tmp))
         path = os.path.join(REPLAYS, "%s-%d-%d-crash.json" % (prop, seed, c["index"]))
         with open(path, "w") as f:
             json.dump({"property": prop, "engine": "crash", "binary": c["engine"], "extra": c["extra"], "class": conf["kind"],
-                       "batch_seed": seed, "tier": tier, "index": c["index"], "stall_s": stall_s, "detail": conf}, f, indent=1)
+                       "batch_seed": seed, "tier": tier, "index": c["index"], "stall_s": CONFIRM_S, "detail": conf}, f, indent=1)
         violations.append({"class": conf["kind"], "signature": "process %s (status %s)" % (conf["kind"], conf["rc"]),
-                           "detail": conf["tail"], "replay": path, "index": c["index"]})
+                           "detail": conf["tail"], "replay": path, "index": c["index"], "confirmed_in_fresh_process": True})
         # the rest of the dead worker's slice was not explored: say so
         log("note: worker %d died at run index %d; indices %d..%d of its slice were not explored" % (c["worker"], c["index"], c["index"] + 1, c["hi"]))
     unminimised = 0
@@ -315,7 +325,10 @@ def check(prop, tier, seed, nworkers, scale):
             continue
         if k is not None:
             replayed_known[k["id"]] = replayed_known.get(k["id"], 0) + 1
-        ok, out = replay_file(v["replay"])
+        if v.get("confirmed_in_fresh_process"):
+            ok, out = True, "confirmed by re-running the single run index in a fresh process"
+        else:
+            ok, out = replay_file(v["replay"])
         if not ok:
             die("violation %s (%s) from run index %s did not reproduce from %s in a fresh process: %s"
                 % (v["class"], v["signature"], v.get("index"), v["replay"], out[:300]))
